@@ -1009,4 +1009,61 @@ theorem early_return_variant_witness :
   decide
 
 
+/-! ### the second rfc0044-gated rule: `DaoScriptSizeVerifier` inside `BlockTxsVerifier` -/
+
+/-- the contextual rule list without the `DaoScriptSizeVerifier` entry (what `BlockTxsVerifier`
+checks when the gate is closed) -/
+def contextualRulesNoDao (cfg : Cfg) (cx : Cx) (b : Blk) : List (Err × Bool) :=
+  [ (.resolve, b.resolveOk),
+    (.epochNumberMismatch, b.epoch == b.expEpoch),
+    (.targetMismatch, b.expTarget == b.target) ] ++
+  unclesRules cfg cx b ++ commitRules cfg cx b ++
+  [ (.daoCalc, b.daoCalcOk), (.invalidDao, b.daoEq) ] ++
+  rewardRules cfg cx b ++ extensionRules (cfg.forParentEpoch cx.parentEpochNumber) b ++
+  [ (.txs, b.txsOk), (.exceededCycles, decide (b.cycles ≤ cfg.maxCycles)) ]
+
+/-- **For every activation epoch: an accepted block whose parent lies at or past the activation epoch
+has equal lock-script sizes in every Nervos DAO deposit → withdrawing pair whose deposit was committed
+at or above `starting_block_limiting_dao_withdrawing_lock`; before activation the contextual stage
+does not look at the pairs at all** (it reports the first failing rule of the list without the
+`DaoScriptSizeVerifier` entry). -/
+theorem dao_lock_size_rule_by_activation (cfg : Cfg) (cx : Cx) (b : Blk) :
+    (cfg.rfc0044Epoch ≤ cx.parentEpochNumber → contextualCheck cfg cx b = none →
+      ∀ p ∈ b.daoPairs, cfg.daoLimitStart ≤ p.2.2 → p.1 = p.2.1) ∧
+    (cx.parentEpochNumber < cfg.rfc0044Epoch →
+      contextualCheck cfg cx b = firstFail (contextualRulesNoDao cfg cx b)) := by
+  constructor
+  · intro ha h p hp hs
+    have hr := (contextual_iff_rules cfg cx b).mp h
+    have hmem : (Err.daoLockSizeMismatch, !cfg.rfc0044Active cx.parentEpochNumber || daoLockSizeOk cfg b) ∈ contextualRules cfg cx b := by
+      unfold contextualRules
+      simp
+    have := hr _ hmem
+    have hact : cfg.rfc0044Active cx.parentEpochNumber = true := (rfc0044_active_iff cfg _).mpr ha
+    simp only [hact, Bool.not_true, Bool.false_or] at this
+    unfold daoLockSizeOk at this
+    have hp' := List.all_eq_true.mp this p hp
+    simp only [Bool.or_eq_true, decide_eq_true_eq, beq_iff_eq] at hp'
+    rcases hp' with hlt | heq
+    · omega
+    · exact heq
+  · intro hlt
+    have hact : cfg.rfc0044Active cx.parentEpochNumber = false := by
+      simp [Cfg.rfc0044Active]; omega
+    rw [contextualCheck_eq]
+    unfold contextualRules contextualRulesNoDao
+    simp only [firstFail_append, hact, Bool.not_false, Bool.true_or, firstFail, if_true]
+
+/-- the gate flips exactly at the activation epoch: the same block (one mismatching pair, everything
+else in order) passes `BlockTxsVerifier` on a parent of epoch `e - 1` and is refused (`DaoLockSizeMismatch`) on a parent of epoch `e` -/
+example :
+    let cfg : Cfg := { rfc0044Epoch := 6, daoLimitStart := 0 }
+    let cx (pe : Nat) : Cx := { exCx with parentEpochNumber := pe }
+    let b : Blk := { exBlk with daoPairs := [(61, 62, 3)] }
+    contextualCheck cfg (cx 5) b = none ∧ contextualCheck cfg (cx 6) b = some .daoLockSizeMismatch ∧
+    contextualCheck cfg (cx 6) { b with daoPairs := [(61, 61, 3)] } = none ∧
+    contextualCheck { cfg with daoLimitStart := 4 } (cx 6) b = none := by
+  decide
+
+
 end CkbVerif.C03
